@@ -1,5 +1,6 @@
 import ScVerif.Base.Line
 import ScVerif.C19.Electric
+import ScVerif.C19.Events
 /-! Driver handler for C19 (stateful: one electric model per driver process, `reset` starts afresh).
 
 ```
@@ -8,9 +9,9 @@ find <id>
 create <mode> <cands>      add <mode>        update <mode> <mask>     delete <id> <0|1>
 setactive <mode>           change <id> <now> clear <now>
 s.create <mode> <cands>    s.update <mode> <mask>   s.delete <id> <0|1>   s.change <id> <now>   s.clear <now>
-  mode  = m:<idhex>:<titlehex>:<0|1>:<start|->        id = i<hex>
+  mode  = m:<idhex>:<titlehex>:<0|1>:<start|->[:<deschex>:<volts>:<seg,seg|->]        id = i<hex>
   cands = c<hex>,<hex>,…                               mask = nil | p:<id|title|normal|start_time|bogus>,…
-answer: <OK[=mode]|err:<Code>|panic> modes=[mode;…] active=<mode> normal=<mode|-> changed=<0|1>
+answer: <OK[=mode]|err:<Code>|panic> modes=[mode;…] active=<mode> normal=<mode|-> changed=<0|1> events=[A<mode>|U<old>><new>|R<old>;…] active-events=[mode;…]
 ```
 -/
 namespace ScVerif.C19
@@ -46,11 +47,26 @@ def parseMode? (s : String) : Option Mode :=
     let title ← unhex? t
     let normal ← parseBool? n
     let start ← if st = "-" then some none else (parseNat? st).map some
-    pure ⟨id, title, normal, start⟩
+    pure (Mode.mk4 id title normal start)
+  | ["m", i, t, n, st, d, v, sg] => do
+    let id ← unhex? i
+    let title ← unhex? t
+    let normal ← parseBool? n
+    let start ← if st = "-" then some none else (parseNat? st).map some
+    let desc ← unhex? d
+    let volt ← parseNat? v
+    let segs ← if sg = "-" then some [] else (sg.splitOn ",").mapM parseNat?
+    pure { id := id, title := title, normal := normal, start := start, description := desc, voltage := volt, segments := segs }
   | _ => none
 
 def showMode (m : Mode) : String :=
-  s!"m:{hex m.id}:{hex m.title}:{if m.normal then "1" else "0"}:{match m.start with | none => "-" | some t => toString t}"
+  let segs := if m.segments.isEmpty then "-" else ",".intercalate (m.segments.map toString)
+  s!"m:{hex m.id}:{hex m.title}:{if m.normal then "1" else "0"}:{match m.start with | none => "-" | some t => toString t}:{hex m.description}:{m.voltage}:{segs}"
+
+def showEvent : ModeEvent → String
+  | .add n => "A" ++ showMode n
+  | .update o n => "U" ++ showMode o ++ ">" ++ showMode n
+  | .remove o => "R" ++ showMode o
 
 def parseId? (s : String) : Option String :=
   if s.startsWith "i" then unhex? (s.drop 1).toString else none
@@ -64,6 +80,9 @@ def parseField? (s : String) : Option (Option Field) :=
   else if s = "title" then some (some .title)
   else if s = "normal" then some (some .normal)
   else if s = "start_time" then some (some .start)
+  else if s = "description" then some (some .description)
+  else if s = "voltage" then some (some .voltage)
+  else if s = "segments" then some (some .segments)
   else if s = "bogus" then some none
   else none
 
@@ -112,7 +131,8 @@ def handleS (s : St) (toks : List String) : St × String :=
     match parseOp? toks with
     | some op =>
       let (s', r) := step s op
-      (s', showRes r ++ " " ++ showSt s')
+      let evs := s!" events=[{";".intercalate ((modeEvents s op).map showEvent)}] active-events=[{";".intercalate ((activeEvents s op).map showMode)}]"
+      (s', showRes r ++ " " ++ showSt s' ++ evs)
     | none => (s, "!bad-op")
 
 end ScVerif.C19
